@@ -42,6 +42,7 @@ func flowJudge(w *fw.W, prop string, c *flowCase, o sl.CompareOpts, classify fun
 	if exp.Ambiguous != "" {
 		w.Count("ambiguous_skipped", 1)
 		w.Cover("ambiguous_reasons", exp.Ambiguous)
+		w.Count("ambiguous: "+exp.Ambiguous, 1)
 		return true
 	}
 	w.Trace(c)
